@@ -1,10 +1,730 @@
 (* C25 — proofs about the DirectAddrUpdateState scheduling model. *)
 From V Require Import Lib.Base Model.C25.
+From Coq Require Import ZifyBool.
 Import C25.
 Open Scope N_scope.
 
+(* ------------------------------------------------------------------ *)
+(* task lists *)
+
+Lemma find_task_some t l k : find_task t l = Some k -> In k l /\ tid k = t.
+Proof.
+  unfold find_task. intros H. apply find_some in H as [H1 H2]. split; [assumption|].
+  now apply N.eqb_eq.
+Qed.
+
+Lemma nodup_tid_inj l k1 k2 :
+  NoDup (map tid l) -> In k1 l -> In k2 l -> tid k1 = tid k2 -> k1 = k2.
+Proof.
+  induction l as [|a l IH]; cbn; [tauto|]. intros Hn H1 H2 E.
+  inversion Hn as [|x y Hnot Hn']; subst.
+  destruct H1 as [->|H1], H2 as [->|H2]; auto.
+  - exfalso. apply Hnot. rewrite E. now apply in_map.
+  - exfalso. apply Hnot. rewrite <- E. now apply in_map.
+Qed.
+
+Lemma find_task_in l k : NoDup (map tid l) -> In k l -> find_task (tid k) l = Some k.
+Proof.
+  intros Hn Hin. unfold find_task.
+  destruct (find (fun k0 => tid k0 =? tid k) l) as [k'|] eqn:F.
+  - apply find_some in F as [F1 F2]. apply N.eqb_eq in F2.
+    f_equal. now apply (nodup_tid_inj l).
+  - exfalso. apply (find_none _ _ F) in Hin. rewrite N.eqb_refl in Hin. discriminate.
+Qed.
+
+Lemma in_upd t f l k' :
+  In k' (upd t f l) <-> exists k, In k l /\ k' = (if tid k =? t then f k else k).
+Proof.
+  unfold upd. rewrite in_map_iff. split; intros [k [A B]]; exists k; auto.
+Qed.
+
+Lemma map_tid_upd t f l : (forall k, tid (f k) = tid k) -> map tid (upd t f l) = map tid l.
+Proof.
+  intros Hf. unfold upd. rewrite map_map. apply map_ext. intros k.
+  destruct (tid k =? t); auto.
+Qed.
+
+Lemma in_del t l k : In k (del t l) <-> In k l /\ tid k <> t.
+Proof.
+  unfold del. rewrite filter_In. split; intros [A B]; split; auto.
+  - intros E. apply N.eqb_eq in E. rewrite E in B. discriminate.
+  - apply N.eqb_neq in B. now rewrite B.
+Qed.
+
+Lemma nodup_map_filter (p : task -> bool) l :
+  NoDup (map tid l) -> NoDup (map tid (filter p l)).
+Proof.
+  induction l as [|a l IH]; cbn; [auto|]. intros Hn. inversion Hn as [|x y Hnot Hn']; subst.
+  destruct (p a); cbn; auto. constructor; auto.
+  intros Hin. apply Hnot. apply in_map_iff in Hin as [k [E Hk]]. apply filter_In in Hk as [Hk _].
+  rewrite <- E. now apply in_map.
+Qed.
+
+Lemma nodup_snoc {A} (l : list A) x : NoDup l -> ~ In x l -> NoDup (l ++ [x]).
+Proof.
+  induction l as [|a l IH]; cbn; intros Hn Hx.
+  - repeat constructor; auto.
+  - inversion Hn; subst. constructor.
+    + rewrite in_app_iff; cbn. intuition (subst; auto).
+    + apply IH; auto.
+Qed.
+
+(* ------------------------------------------------------------------ *)
+(* the invariant *)
+
+Definition ord_ok (o : order) (k : task) : Prop :=
+  match o with
+  | ReleaseFirst => snt k = true -> rel k = true
+  | SendFirst => rel k = true -> snt k = true
+  end.
+
+Record Inv (o : order) (s : st) : Prop := {
+  inv_nodup : NoDup (map tid (tasks s));
+  inv_lt : forall k, In k (tasks s) -> tid k < next s;
+  inv_free : lock s = false -> forall k, In k (tasks s) -> rel k = true;
+  inv_held : lock s = true -> exists k, In k (tasks s) /\ rel k = false;
+  inv_one : forall k1 k2, In k1 (tasks s) -> In k2 (tasks s) ->
+            rel k1 = false -> rel k2 = false -> k1 = k2;
+  inv_ph : forall k, In k (tasks s) -> rel k = true \/ snt k = true -> ph k = Stored;
+  inv_ord : forall k, In k (tasks s) -> ord_ok o k
+}.
+
+Lemma inv_init o e0 : Inv o (init e0).
+Proof.
+  constructor; cbn; try tauto; try discriminate. constructor.
+Qed.
+
+(* states differing only in fields the invariant does not mention *)
+Lemma inv_same o s s' :
+  tasks s' = tasks s -> lock s' = lock s -> next s' = next s -> Inv o s -> Inv o s'.
+Proof.
+  intros E1 E2 E3 [A B C D E F G]. constructor; rewrite ?E1, ?E2, ?E3; assumption.
+Qed.
+
+Lemma sres_eqb_eq a b : sres_eqb a b = true -> a = b.
+Proof. destruct a, b; cbn; try discriminate; auto. intros H. apply N.eqb_eq in H. now subst. Qed.
+Lemma reason_eqb_eq a b : reason_eqb a b = true -> a = b.
+Proof. destruct a, b; cbn; try discriminate; auto. Qed.
+Lemma tres_eqb_eq a b : tres_eqb a b = true -> a = b.
+Proof.
+  destruct a, b; cbn; try discriminate; auto.
+  - intros H. apply andb_prop in H as [H1 H2]. apply reason_eqb_eq in H1. apply N.eqb_eq in H2. now subst.
+  - intros H. apply reason_eqb_eq in H. now subst.
+  - intros H. apply reason_eqb_eq in H. now subst.
+Qed.
+Lemma reason_eqb_refl a : reason_eqb a a = true.
+Proof. now destruct a. Qed.
+Lemma sres_eqb_refl a : sres_eqb a a = true.
+Proof. destruct a; cbn; auto. apply N.eqb_refl. Qed.
+Lemma tres_eqb_refl a : tres_eqb a a = true.
+Proof. destruct a; cbn; rewrite ?reason_eqb_refl, ?N.eqb_refl; auto. Qed.
+Lemma ev_eqb_refl a : ev_eqb a a = true.
+Proof.
+  destruct a; cbn; rewrite ?reason_eqb_refl, ?sres_eqb_refl, ?tres_eqb_refl, ?N.eqb_refl; auto.
+  now destruct e.
+Qed.
+
+Lemma sched_start s t : sched_result s = SStart t -> lock s = false /\ t = next s.
+Proof.
+  unfold sched_result. destruct (lock s); [discriminate|]. destruct (down s); [discriminate|].
+  destruct (empty s); [discriminate|]. intros H. injection H as <-. auto.
+Qed.
+
+Lemma try_start s w t : try_result s = TStart w t -> lock s = false /\ t = next s /\ want s = Some w.
+Proof.
+  unfold try_result. destruct (lock s); [discriminate|]. destruct (want s) as [w'|]; [|discriminate].
+  destruct (down s); [discriminate|]. destruct (empty s); [discriminate|].
+  intros H. injection H as <- <-. auto.
+Qed.
+
+Lemma inv_spawn o s s0 t :
+  Inv o s0 -> lock s0 = false -> t = next s0 ->
+  tasks s = tasks s0 ++ [mkTask t Spawned false false] -> lock s = true -> next s = t + 1 ->
+  Inv o s.
+Proof.
+  intros [A B C D E F G] L -> ET EL EN.
+  assert (Hin : forall k, In k (tasks s) <-> In k (tasks s0) \/ k = mkTask (next s0) Spawned false false).
+  { intros k. rewrite ET, in_app_iff. cbn. intuition. }
+  constructor.
+  - rewrite ET, map_app. cbn. apply nodup_snoc; auto.
+    intros Hi. apply in_map_iff in Hi as [k [E1 E2]]. apply B in E2. lia.
+  - intros k Hk. rewrite EN. apply Hin in Hk as [Hk | ->]; [apply B in Hk; lia | cbn; lia].
+  - rewrite EL. discriminate.
+  - intros _. eexists. split; [apply Hin; right; reflexivity | reflexivity].
+  - intros k1 k2 H1 H2 R1 R2. apply Hin in H1, H2.
+    destruct H1 as [H1 | E1]; [rewrite (C L _ H1) in R1; discriminate|].
+    destruct H2 as [H2 | E2]; [rewrite (C L _ H2) in R2; discriminate|]. congruence.
+  - intros k Hk. apply Hin in Hk as [Hk | ->]; auto. cbn. intros [X|X]; discriminate.
+  - intros k Hk. apply Hin in Hk as [Hk | ->]; auto. destruct o; cbn; discriminate.
+Qed.
+
+Lemma in_upd_cases t f l kf k' :
+  NoDup (map tid l) -> find_task t l = Some kf -> In k' (upd t f l) ->
+  k' = f kf \/ (In k' l /\ tid k' <> t).
+Proof.
+  intros Hn Hf Hin. apply find_task_some in Hf as [Hk Ht].
+  apply in_upd in Hin as [k [Hk' ->]].
+  destruct (tid k =? t) eqn:E.
+  - apply N.eqb_eq in E. left. f_equal. apply (nodup_tid_inj l); auto. congruence.
+  - apply N.eqb_neq in E. right. auto.
+Qed.
+
+Lemma in_upd_other t f l k : In k l -> tid k <> t -> In k (upd t f l).
+Proof.
+  intros Hk Hne. apply in_upd. exists k. split; auto. apply N.eqb_neq in Hne. now rewrite Hne.
+Qed.
+
+Lemma in_upd_self t f l kf : find_task t l = Some kf -> In (f kf) (upd t f l).
+Proof.
+  intros Hf. apply find_task_some in Hf as [Hk Ht]. apply in_upd. exists kf. split; auto.
+  subst t. now rewrite N.eqb_refl.
+Qed.
+
+(* an update of one task that keeps its id and its hold on the guard *)
+Lemma inv_upd o s s' t f kf :
+  Inv o s -> find_task t (tasks s) = Some kf ->
+  (forall k, tid (f k) = tid k) -> (forall k, rel (f k) = rel k) ->
+  tasks s' = upd t f (tasks s) -> lock s' = lock s -> next s' = next s ->
+  (rel (f kf) = true \/ snt (f kf) = true -> ph (f kf) = Stored) ->
+  ord_ok o (f kf) ->
+  Inv o s'.
+Proof.
+  intros [A B C D E F G] Hf Ftid Frel ET EL EN Hph Hord.
+  pose proof (find_task_some _ _ _ Hf) as [Hkf Htid].
+  assert (Hc : forall k', In k' (tasks s') -> k' = f kf \/ (In k' (tasks s) /\ tid k' <> t)).
+  { intros k'. rewrite ET. now apply in_upd_cases. }
+  (* every task of s' comes from a task of s with the same id and rel *)
+  assert (Hsrc : forall k', In k' (tasks s') -> exists k, In k (tasks s) /\ tid k = tid k' /\ rel k = rel k').
+  { intros k' Hk'. apply Hc in Hk' as [-> | [Hk' _]]; eauto. }
+  constructor.
+  - rewrite ET, map_tid_upd; auto.
+  - intros k' Hk'. rewrite EN. apply Hsrc in Hk' as [k [H1 [H2 _]]]. rewrite <- H2. auto.
+  - rewrite EL. intros L k' Hk'. apply Hsrc in Hk' as [k [H1 [_ H3]]]. rewrite <- H3. auto.
+  - rewrite EL. intros L. destruct (D L) as [k [H1 H2]].
+    destruct (N.eq_dec (tid k) t) as [Et|Et].
+    + assert (k = kf) by (apply (nodup_tid_inj (tasks s)); auto; congruence). subst k.
+      exists (f kf). split; [rewrite ET; now apply in_upd_self | now rewrite Frel].
+    + exists k. split; [rewrite ET; now apply in_upd_other | assumption].
+  - intros k1 k2 H1 H2 R1 R2.
+    pose proof (Hc _ H1) as C1. pose proof (Hc _ H2) as C2.
+    destruct C1 as [-> | [I1 N1]], C2 as [-> | [I2 N2]]; auto.
+    + rewrite Frel in R1. assert (kf = k2) by (apply E; auto). subst. congruence.
+    + rewrite Frel in R2. assert (k1 = kf) by (apply E; auto). subst. congruence.
+  - intros k' Hk'. apply Hc in Hk' as [-> | [Hk' _]]; auto.
+  - intros k' Hk'. apply Hc in Hk' as [-> | [Hk' _]]; auto.
+Qed.
+
+Lemma task_is_some s t p : task_is s t p = true -> exists k, find_task t (tasks s) = Some k /\ p k = true.
+Proof. unfold task_is. destruct (find_task t (tasks s)) as [k|]; [eauto|discriminate]. Qed.
+
+Lemma is_ph_eq p k : is_ph p k = true -> ph k = p.
+Proof. unfold is_ph. destruct p, (ph k); auto; discriminate. Qed.
+
+Lemma inv_step o cap s e s' : Inv o s -> step o cap s e = Some s' -> Inv o s'.
+Proof.
+  intros HI. unfold step. destruct (enabled o cap s e) eqn:En; [|discriminate].
+  intros H; injection H as <-.
+  destruct e as [b| |w r| |r|t|t|t|t|t]; cbn [apply].
+  - apply (inv_same o s); [reflexivity..|assumption].
+  - apply (inv_same o s); [reflexivity..|assumption].
+  - cbn [enabled] in En. apply andb_prop in En as [_ En]. apply sres_eqb_eq in En.
+    destruct r as [t| | |]; try (apply (inv_same o s); [reflexivity..|assumption]).
+    symmetry in En. apply sched_start in En as [L ->].
+    eapply inv_spawn; eauto.
+  - apply (inv_same o s); [reflexivity..|assumption].
+  - cbn [enabled] in En. apply andb_prop in En as [_ En]. apply tres_eqb_eq in En.
+    destruct r as [w t|w|w| |]; try (apply (inv_same o s); [reflexivity..|assumption]).
+    symmetry in En. apply try_start in En as [L [-> _]].
+    eapply inv_spawn with (s0 := s); eauto.
+  - cbn [enabled] in En. apply task_is_some in En as [k [Hf Hp]]. apply is_ph_eq in Hp.
+    pose proof (find_task_some _ _ _ Hf) as [Hk _].
+    eapply inv_upd with (f := set_ph Worked); eauto; cbn.
+    + intros [X|X]; pose proof (inv_ph _ _ HI k Hk) as Y; rewrite Y in Hp; auto; discriminate.
+    + apply (inv_ord _ _ HI k Hk).
+  - cbn [enabled] in En. apply task_is_some in En as [k [Hf Hp]]. apply is_ph_eq in Hp.
+    pose proof (find_task_some _ _ _ Hf) as [Hk _].
+    eapply inv_upd with (f := set_ph Stored); eauto; cbn.
+    apply (inv_ord _ _ HI k Hk).
+  - (* release *)
+    cbn [enabled] in En. apply task_is_some in En as [kf [Hf Hp]].
+    apply andb_prop in Hp as [Hp Ho]. apply andb_prop in Hp as [Hp Hr].
+    apply is_ph_eq in Hp. apply negb_true_iff in Hr.
+    pose proof (find_task_some _ _ _ Hf) as [Hkf Htid].
+    destruct HI as [A B C D E F G].
+    assert (Hc : forall k', In k' (upd t set_rel (tasks s)) -> k' = set_rel kf \/ (In k' (tasks s) /\ tid k' <> t)).
+    { intros k'. now apply in_upd_cases. }
+    assert (Hall : forall k', In k' (upd t set_rel (tasks s)) -> rel k' = true).
+    { intros k' Hk'. apply Hc in Hk' as [-> | [Hk' Hne]]; [reflexivity|].
+      destruct (rel k') eqn:R; auto. exfalso. apply Hne.
+      assert (k' = kf) by (apply E; auto). congruence. }
+    constructor; cbn.
+    + rewrite map_tid_upd; auto.
+    + intros k' Hk'. apply Hc in Hk' as [-> | [Hk' _]]; cbn; auto.
+    + intros _. exact Hall.
+    + discriminate.
+    + intros k1 k2 H1 H2 R1. rewrite (Hall _ H1) in R1. discriminate.
+    + intros k' Hk'. apply Hc in Hk' as [-> | [Hk' _]]; cbn; auto.
+    + intros k' Hk'. apply Hc in Hk' as [-> | [Hk' _]]; auto.
+      destruct o; cbn; auto.
+  - (* send *)
+    cbn [enabled] in En. apply andb_prop in En as [En _].
+    apply task_is_some in En as [kf [Hf Hp]].
+    apply andb_prop in Hp as [Hp Ho]. apply andb_prop in Hp as [Hp Hs].
+    apply is_ph_eq in Hp.
+    pose proof (find_task_some _ _ _ Hf) as [Hk _].
+    eapply inv_upd with (f := set_snt); eauto; cbn; auto.
+    destruct o; cbn; auto.
+  - (* end *)
+    cbn [enabled] in En. apply task_is_some in En as [kf [Hf Hp]].
+    apply andb_prop in Hp as [Hp Hs]. apply andb_prop in Hp as [Hp Hr].
+    pose proof (find_task_some _ _ _ Hf) as [Hkf Htid].
+    destruct HI as [A B C D E F G].
+    constructor; cbn.
+    + now apply nodup_map_filter.
+    + intros k Hk. apply in_del in Hk as [Hk _]. auto.
+    + intros L k Hk. apply in_del in Hk as [Hk _]. auto.
+    + intros L. destruct (D L) as [k [H1 H2]]. exists k. split; auto.
+      apply in_del. split; auto. intros Et.
+      assert (k = kf) by (apply (nodup_tid_inj (tasks s)); auto; congruence). subst. congruence.
+    + intros k1 k2 H1 H2. apply in_del in H1 as [H1 _], H2 as [H2 _]. auto.
+    + intros k Hk. apply in_del in Hk as [Hk _]. auto.
+    + intros k Hk. apply in_del in Hk as [Hk _]. auto.
+Qed.
+
+Lemma inv_steps o cap tr : forall s s', Inv o s -> steps o cap s tr = Some s' -> Inv o s'.
+Proof.
+  induction tr as [|e tr IH]; cbn; intros s s' HI H.
+  - now injection H as <-.
+  - destruct (step o cap s e) as [s1|] eqn:E; [|discriminate].
+    eapply IH; [|eassumption]. eapply inv_step; eauto.
+Qed.
+
+(* ------------------------------------------------------------------ *)
+(* at most one run holds the reporter *)
+
+Definition one_run (s : st) : Prop :=
+  NoDup (map tid (tasks s)) /\
+  (forall k1 k2, In k1 (tasks s) -> In k2 (tasks s) -> rel k1 = false -> rel k2 = false -> k1 = k2) /\
+  (lock s = true <-> exists k, In k (tasks s) /\ rel k = false) /\
+  (forall k, In k (tasks s) -> ph k = Spawned \/ ph k = Worked -> rel k = false).
+
+Lemma inv_one_run o s : Inv o s -> one_run s.
+Proof.
+  intros [A B C D E F G]. repeat split; auto.
+  - intros [k [H1 H2]]. destruct (lock s) eqn:L; auto. rewrite (C eq_refl k H1) in H2. discriminate.
+  - intros k Hk Hp. destruct (rel k) eqn:R; auto.
+    rewrite (F k Hk (or_introl R)) in Hp. destruct Hp; discriminate.
+Qed.
+
+Lemma at_most_one_run o cap e0 tr s :
+  steps o cap (init e0) tr = Some s -> one_run s.
+Proof. intros H. eapply inv_one_run, inv_steps; [apply inv_init | eassumption]. Qed.
+
+(* ------------------------------------------------------------------ *)
+(* no stuck request (guard released before the done signal) *)
+
+Definition NS (s : st) : Prop := forall w, want s = Some w -> pending_trigger s = true.
+
+Lemma existsb_unsent_in l k : In k l -> snt k = false -> existsb (fun k => negb (snt k)) l = true.
+Proof. intros H1 H2. apply existsb_exists. exists k. split; auto. now rewrite H2. Qed.
+
+Lemma pt_task s k : In k (tasks s) -> snt k = false -> pending_trigger s = true.
+Proof.
+  intros H1 H2. unfold pending_trigger. rewrite (existsb_unsent_in _ _ H1 H2).
+  now rewrite orb_true_r.
+Qed.
+
+(* while the lock is held, the holder has not sent its done signal yet *)
+Lemma held_unsent s : Inv ReleaseFirst s -> lock s = true -> pending_trigger s = true.
+Proof.
+  intros HI L. destruct (inv_held _ _ HI L) as [k [H1 H2]].
+  apply (pt_task s k H1). pose proof (inv_ord _ _ HI k H1) as Ho. cbn in Ho.
+  destruct (snt k); auto. rewrite Ho in H2; auto.
+Qed.
+
+Lemma existsb_upd_snt t f l :
+  (forall k, snt (f k) = snt k) ->
+  existsb (fun k => negb (snt k)) (upd t f l) = existsb (fun k => negb (snt k)) l.
+Proof.
+  intros Hf. unfold upd. induction l as [|a l IH]; cbn; auto.
+  rewrite IH. f_equal. destruct (tid a =? t); auto. now rewrite Hf.
+Qed.
+
+Lemma ns_step cap s e s' :
+  Inv ReleaseFirst s -> NS s -> step ReleaseFirst cap s e = Some s' -> NS s'.
+Proof.
+  intros HI HN. unfold step. destruct (enabled ReleaseFirst cap s e) eqn:En; [|discriminate].
+  intros H; injection H as <-. unfold NS in *.
+  destruct e as [b| |w r| |r|t|t|t|t|t]; cbn [apply].
+  - exact HN.
+  - exact HN.
+  - cbn [enabled] in En. apply andb_prop in En as [_ En]. apply sres_eqb_eq in En.
+    destruct r as [t| | |]; try exact HN.
+    + intros w' _. unfold pending_trigger, spawn; cbn.
+      rewrite existsb_app; cbn. now rewrite !orb_true_r.
+    + intros w' _. unfold sched_result in En. destruct (lock s) eqn:L.
+      * change (pending_trigger s = true). now apply held_unsent.
+      * destruct (down s); [discriminate|]. destruct (empty s); discriminate.
+  - intros w _. unfold pending_trigger; cbn. now rewrite orb_true_r.
+  - cbn [enabled] in En. apply andb_prop in En as [_ En]. apply tres_eqb_eq in En.
+    destruct r as [w t|w|w| |]; try (cbn; discriminate).
+    + (* TNoWant: nothing was wanted *)
+      unfold try_result in En. destruct (lock s); [discriminate|].
+      destruct (want s) as [w|] eqn:W; [|cbn; rewrite W; discriminate].
+      destruct (down s); [discriminate|]. destruct (empty s); discriminate.
+    + (* TBusy *)
+      intros w W. cbn in W.
+      unfold try_result in En. destruct (lock s) eqn:L.
+      * pose proof (held_unsent s HI L) as P. unfold pending_trigger in *; cbn.
+        destruct (inv_held _ _ HI L) as [k [H1 H2]].
+        pose proof (inv_ord _ _ HI k H1) as Ho. cbn in Ho.
+        assert (snt k = false) by (destruct (snt k); auto; rewrite Ho in H2; auto; discriminate).
+        rewrite (existsb_unsent_in _ _ H1 H). now rewrite !orb_true_r.
+      * destruct (want s); [|discriminate]. destruct (down s); [discriminate|]. destruct (empty s); discriminate.
+  - intros w W. cbn in W. specialize (HN w W). unfold pending_trigger in *; cbn.
+    rewrite existsb_upd_snt; auto.
+  - intros w W. cbn in W. specialize (HN w W). unfold pending_trigger in *; cbn.
+    rewrite existsb_upd_snt; auto.
+  - intros w W. cbn in W. specialize (HN w W). unfold pending_trigger in *; cbn.
+    rewrite existsb_upd_snt; auto.
+  - intros w W. unfold pending_trigger; cbn.
+    assert (0 <? doneq s + 1 = true) by lia. now rewrite H.
+  - (* end: the task that goes has sent *)
+    intros w W. cbn in W. specialize (HN w W). unfold pending_trigger in *; cbn.
+    cbn [enabled] in En. apply task_is_some in En as [kf [Hf Hp]].
+    apply andb_prop in Hp as [Hp Hs].
+    pose proof (find_task_some _ _ _ Hf) as [Hkf Htid].
+    apply orb_prop in HN as [HN|HN]; [rewrite HN; reflexivity|].
+    apply existsb_exists in HN as [k [H1 H2]].
+    assert (In k (del t (tasks s))).
+    { apply in_del. split; auto. intros Et.
+      assert (k = kf) by (apply (nodup_tid_inj (tasks s)); auto; [apply (inv_nodup _ _ HI) | congruence]).
+      subst. rewrite Hs in H2. discriminate. }
+    assert (X : existsb (fun k => negb (snt k)) (del t (tasks s)) = true).
+    { apply existsb_exists. eauto. }
+    rewrite X. now rewrite orb_true_r.
+Qed.
+
+Lemma ns_init e0 : NS (init e0).
+Proof. intros w; cbn; discriminate. Qed.
+
+Lemma ns_steps cap tr : forall s s',
+  Inv ReleaseFirst s -> NS s -> steps ReleaseFirst cap s tr = Some s' -> NS s'.
+Proof.
+  induction tr as [|e tr IH]; cbn; intros s s' HI HN H.
+  - now injection H as <-.
+  - destruct (step ReleaseFirst cap s e) as [s1|] eqn:E; [|discriminate].
+    eapply IH; [| |eassumption]; [eapply inv_step | eapply ns_step]; eauto.
+Qed.
+
+(* the readable form of pending_trigger *)
+Definition trigger_pending (s : st) : Prop :=
+  0 < doneq s \/ got s = true \/ exists k, In k (tasks s) /\ snt k = false.
+
+Lemma pending_trigger_spec s : pending_trigger s = true <-> trigger_pending s.
+Proof.
+  unfold pending_trigger, trigger_pending. rewrite !orb_true_iff, existsb_exists.
+  split.
+  - intros [[H|H]|[k [H1 H2]]]; [left; lia | right; left; assumption |].
+    right; right. exists k. split; auto. now apply negb_true_iff.
+  - intros [H|[H|[k [H1 H2]]]]; [left; left; lia | left; right; assumption |].
+    right. exists k. split; auto. now rewrite H2.
+Qed.
+
+Lemma no_stuck_request cap e0 tr s w :
+  steps ReleaseFirst cap (init e0) tr = Some s -> want s = Some w -> trigger_pending s.
+Proof.
+  intros H W. apply pending_trigger_spec.
+  eapply ns_steps; eauto using inv_init, ns_init.
+Qed.
+
+(* ------------------------------------------------------------------ *)
+(* the boolean monitor *)
+
+Definition one_holder (s : st) : Prop :=
+  (holders s = [] /\ lock s = false) \/ (exists k, holders s = [k] /\ lock s = true).
+
+Definition Good (s : st) : Prop :=
+  (forall w, want s = Some w -> trigger_pending s) /\ one_holder s.
+
+Lemma onerun_b_spec s : onerun_b s = true <-> one_holder s.
+Proof.
+  unfold onerun_b, one_holder. destruct (holders s) as [|k [|k2 r]].
+  - rewrite negb_true_iff. split; [auto|]. intros [[_ H]|[k [H _]]]; [auto|discriminate].
+  - split; [intros H; right; eauto|]. intros [[H _]|[k' [_ H]]]; [discriminate|auto].
+  - split; [discriminate|]. intros [[H _]|[k' [H _]]]; discriminate.
+Qed.
+
+Lemma good_b_spec s : good_b s = true <-> Good s.
+Proof.
+  unfold good_b, Good. rewrite andb_true_iff, onerun_b_spec.
+  assert (X : nostuck_b s = true <-> (forall w, want s = Some w -> trigger_pending s)).
+  { unfold nostuck_b. destruct (want s) as [w|].
+    - rewrite pending_trigger_spec. split; [intros H w' _; exact H | intros H; exact (H w eq_refl)].
+    - split; [discriminate | auto]. }
+  now rewrite X.
+Qed.
+
+Lemma all_states_spec tr : forall s,
+  all_states s tr = true <-> forall n, good_b (run_evs s (firstn n tr)) = true.
+Proof.
+  induction tr as [|e tr IH]; intros s; cbn [all_states].
+  - rewrite andb_true_r. split.
+    + intros H n. now rewrite firstn_nil.
+    + intros H. exact (H O).
+  - rewrite andb_true_iff, IH. split.
+    + intros [H0 H] [|n]; cbn; [exact H0 | apply H].
+    + intros H. split; [exact (H O) | intros n; exact (H (S n))].
+Qed.
+
+Lemma filter_none {A} (p : A -> bool) l : (forall k, In k l -> p k = false) -> filter p l = [].
+Proof.
+  induction l as [|a l IH]; cbn; auto. intros H. rewrite (H a (or_introl eq_refl)). apply IH. auto.
+Qed.
+
+Lemma onerun_of_inv o s : Inv o s -> onerun_b s = true.
+Proof.
+  intros HI. apply onerun_b_spec. unfold one_holder, holders.
+  destruct (lock s) eqn:L.
+  - right. destruct (inv_held _ _ HI L) as [k [H1 H2]].
+    assert (Hk : In k (filter (fun k => negb (rel k)) (tasks s))).
+    { apply filter_In. split; auto. now rewrite H2. }
+    pose proof (nodup_map_filter (fun k => negb (rel k)) _ (inv_nodup _ _ HI)) as Hn.
+    destruct (filter (fun k => negb (rel k)) (tasks s)) as [|k1 [|k2 r]] eqn:F.
+    + destruct Hk.
+    + eauto.
+    + exfalso.
+      assert (I1 : In k1 (tasks s) /\ rel k1 = false).
+      { assert (X : In k1 (filter (fun k => negb (rel k)) (tasks s))) by (rewrite F; cbn; auto).
+        apply filter_In in X as [X1 X2]. split; auto. now apply negb_true_iff. }
+      assert (I2 : In k2 (tasks s) /\ rel k2 = false).
+      { assert (X : In k2 (filter (fun k => negb (rel k)) (tasks s))) by (rewrite F; cbn; auto).
+        apply filter_In in X as [X1 X2]. split; auto. now apply negb_true_iff. }
+      destruct I1 as [I1 R1], I2 as [I2 R2].
+      pose proof (inv_one _ _ HI k1 k2 I1 I2 R1 R2) as ->.
+      cbn in Hn. inversion Hn as [|x y Hnot _]; subst. apply Hnot. cbn; auto.
+  - left. split; auto. apply filter_none. intros k Hk.
+    now rewrite (inv_free _ _ HI L k Hk).
+Qed.
+
+Lemma good_of_inv s : Inv ReleaseFirst s -> NS s -> good_b s = true.
+Proof.
+  intros HI HN. unfold good_b. rewrite (onerun_of_inv _ _ HI), andb_true_r.
+  unfold nostuck_b. destruct (want s) as [w|] eqn:W; auto. exact (HN w W).
+Qed.
+
+Lemma all_states_of_run cap tr : forall s s',
+  Inv ReleaseFirst s -> NS s -> steps ReleaseFirst cap s tr = Some s' -> all_states s tr = true.
+Proof.
+  induction tr as [|e tr IH]; cbn [all_states steps]; intros s s' HI HN H.
+  - now rewrite good_of_inv.
+  - rewrite good_of_inv; auto. cbn.
+    destruct (step ReleaseFirst cap s e) as [s1|] eqn:E; [|discriminate].
+    assert (s1 = apply s e).
+    { unfold step in E. destruct (enabled ReleaseFirst cap s e); congruence. }
+    subst s1. eapply IH; [| |eassumption]; [eapply inv_step | eapply ns_step]; eauto.
+Qed.
+
+(* ------------------------------------------------------------------ *)
+(* the predicted trace of a script is a run of the transition system *)
+
+Lemma steps_app o cap a : forall s b,
+  steps o cap s (a ++ b) = match steps o cap s a with Some s' => steps o cap s' b | None => None end.
+Proof.
+  induction a as [|e a IH]; cbn; intros s b; auto.
+  destruct (step o cap s e); auto.
+Qed.
+
+Lemma keep_enabled_run o cap l : forall s l' s',
+  keep_enabled o cap s l = (l', s') -> steps o cap s l' = Some s'.
+Proof.
+  induction l as [|e l IH]; cbn; intros s l' s' H.
+  - injection H as <- <-. reflexivity.
+  - destruct (step o cap s e) as [s1|] eqn:E.
+    + destruct (keep_enabled o cap s1 l) as [r s2] eqn:K. injection H as <- <-.
+      cbn. rewrite E. eapply IH; eauto.
+    + injection H as <- <-. reflexivity.
+Qed.
+
+Lemma exec_all_run o cap cs : forall s, exists s', steps o cap s (exec_all o cap s cs) = Some s'.
+Proof.
+  induction cs as [|c cs IH]; cbn; intros s; [eauto|].
+  destruct (keep_enabled o cap s (exec o cap s c)) as [l s1] eqn:K.
+  apply keep_enabled_run in K. rewrite steps_app, K. apply IH.
+Qed.
+
+Lemma model_trace_run o i :
+  exists s', steps o DONE_CAP (init (fst i)) (model_trace o i) = Some s'.
+Proof.
+  unfold model_trace.
+  destruct (keep_enabled o DONE_CAP (init (fst i)) (startup (init (fst i)))) as [l0 s1] eqn:K.
+  apply keep_enabled_run in K. rewrite steps_app, K. apply exec_all_run.
+Qed.
+
+Lemma model_monitor i : monitor i (model i) = true.
+Proof.
+  unfold monitor, model. destruct (model_trace_run code_order i) as [s' H].
+  eapply all_states_of_run; eauto using inv_init, ns_init.
+Qed.
+
+Lemma model_agrees i : agree i (model i) = true.
+Proof.
+  unfold agree, model. cbn. apply list_eqb_refl, ev_eqb_refl.
+Qed.
+
+(* what the monitor says about an observed trace *)
+Lemma monitor_spec e0 cs tr :
+  monitor (e0, cs) (Ok tr) = true <-> forall n, Good (run_evs (init e0) (firstn n tr)).
+Proof.
+  unfold monitor. cbn [fst]. rewrite all_states_spec.
+  split; intros H n; apply good_b_spec, H.
+Qed.
+
+(* ------------------------------------------------------------------ *)
+(* progress *)
+
+Definition internal (e : ev) : bool :=
+  match e with ESetRelays _ | EShutdown | ESched _ _ => false | _ => true end.
+
+Lemma task_is_in s k p : NoDup (map tid (tasks s)) -> In k (tasks s) -> p k = true ->
+  task_is s (tid k) p = true.
+Proof. intros Hn Hk Hp. unfold task_is. now rewrite (find_task_in _ _ Hn Hk). Qed.
+
+Lemma progress_enabled cap s w :
+  1 <= cap -> Inv ReleaseFirst s -> NS s -> want s = Some w ->
+  exists e, internal e = true /\ enabled ReleaseFirst cap s e = true.
+Proof.
+  intros Hcap HI HN W. specialize (HN w W).
+  destruct (got s) eqn:G.
+  { exists (ETry (try_result s)). cbn. now rewrite G, tres_eqb_refl. }
+  destruct (0 <? doneq s) eqn:Q.
+  { exists ERecv. cbn. now rewrite G, Q. }
+  unfold pending_trigger in HN. rewrite G, Q in HN. cbn in HN.
+  apply existsb_exists in HN as [k [Hk Hs]]. apply negb_true_iff in Hs.
+  pose proof (inv_nodup _ _ HI) as Hn.
+  destruct (ph k) eqn:P.
+  - exists (EWork (tid k)). split; auto. cbn. apply task_is_in; auto. unfold is_ph. now rewrite P.
+  - exists (EStore (tid k)). split; auto. cbn. apply task_is_in; auto. unfold is_ph. now rewrite P.
+  - destruct (rel k) eqn:R.
+    + exists (ESend (tid k)). split; auto. cbn.
+      rewrite task_is_in; auto; [cbn; lia|]. unfold is_ph. now rewrite P, Hs, R.
+    + exists (ERelease (tid k)). split; auto. cbn. apply task_is_in; auto.
+      unfold is_ph. now rewrite P, R.
+Qed.
+
+Definition tw (k : task) : N :=
+  match ph k with
+  | Spawned => 7
+  | Worked => 6
+  | Stored => 1 + (if rel k then 0 else 1) + (if snt k then 0 else 3)
+  end.
+Fixpoint sumw (l : list task) : N := match l with [] => 0 | k :: l' => tw k + sumw l' end.
+Definition mu (s : st) : N := sumw (tasks s) + 2 * doneq s + (if got s then 1 else 0).
+
+Lemma upd_notin t f l : ~ In t (map tid l) -> upd t f l = l.
+Proof.
+  unfold upd. induction l as [|a l IH]; cbn; auto. intros H.
+  destruct (tid a =? t) eqn:E; [apply N.eqb_eq in E; tauto|]. f_equal. apply IH. tauto.
+Qed.
+
+Lemma del_notin t l : ~ In t (map tid l) -> del t l = l.
+Proof.
+  unfold del. induction l as [|a l IH]; cbn; auto. intros H.
+  destruct (tid a =? t) eqn:E; [apply N.eqb_eq in E; tauto|]. cbn. f_equal. apply IH. tauto.
+Qed.
+
+Lemma sumw_upd t f l k :
+  NoDup (map tid l) -> find_task t l = Some k ->
+  sumw (upd t f l) + tw k = sumw l + tw (f k).
+Proof.
+  unfold find_task. induction l as [|a l IH]; cbn; [discriminate|]. intros Hn Hf.
+  inversion Hn as [|x y Hnot Hn']; subst.
+  destruct (tid a =? t) eqn:E.
+  - injection Hf as <-. apply N.eqb_eq in E. subst t.
+    fold (upd (tid a) f l). rewrite upd_notin; auto. lia.
+  - fold (upd t f l). specialize (IH Hn' Hf). lia.
+Qed.
+
+Lemma sumw_del t l k :
+  NoDup (map tid l) -> find_task t l = Some k -> sumw (del t l) + tw k = sumw l.
+Proof.
+  unfold find_task. induction l as [|a l IH]; cbn; [discriminate|]. intros Hn Hf.
+  inversion Hn as [|x y Hnot Hn']; subst.
+  destruct (tid a =? t) eqn:E; cbn.
+  - injection Hf as <-. apply N.eqb_eq in E. subst t.
+    fold (del (tid a) l). rewrite del_notin; auto. lia.
+  - fold (del t l). specialize (IH Hn' Hf). lia.
+Qed.
+
+Lemma tw_pos k : 1 <= tw k.
+Proof. unfold tw. destruct (ph k), (rel k), (snt k); lia. Qed.
+
+(* every step of the actor's done handling and of the run tasks, except the start of a
+   new run from try_run, decreases mu *)
+Lemma variant o cap s e s' :
+  Inv o s -> step o cap s e = Some s' -> internal e = true ->
+  (forall w t, e <> ETry (TStart w t)) -> mu s' < mu s.
+Proof.
+  intros HI. unfold step. destruct (enabled o cap s e) eqn:En; [|discriminate].
+  intros H; injection H as <-. intros Hint Hne.
+  pose proof (inv_nodup _ _ HI) as Hn.
+  destruct e as [b| |w r| |r|t|t|t|t|t]; try discriminate; cbn [apply]; unfold mu; cbn.
+  - cbn in En. destruct (got s); [discriminate|]. cbn in En. lia.
+  - cbn in En. apply andb_prop in En as [G _]. rewrite G.
+    destruct r as [w t|w|w| |]; cbn; try lia. exfalso. eapply Hne; eauto.
+  - cbn [enabled] in En. apply task_is_some in En as [k [Hf Hp]]. apply is_ph_eq in Hp.
+    pose proof (sumw_upd t (set_ph Worked) _ k Hn Hf) as X.
+    unfold tw in X at 1 2. cbn in X. rewrite Hp in X. lia.
+  - cbn [enabled] in En. apply task_is_some in En as [k [Hf Hp]]. apply is_ph_eq in Hp.
+    pose proof (sumw_upd t (set_ph Stored) _ k Hn Hf) as X.
+    unfold tw in X at 1 2. cbn in X. rewrite Hp in X. destruct (rel k), (snt k); lia.
+  - cbn [enabled] in En. apply task_is_some in En as [k [Hf Hp]].
+    apply andb_prop in Hp as [Hp _]. apply andb_prop in Hp as [Hp Hr].
+    apply is_ph_eq in Hp. apply negb_true_iff in Hr.
+    pose proof (sumw_upd t set_rel _ k Hn Hf) as X.
+    unfold tw in X at 1 2. cbn in X. rewrite Hp, Hr in X. lia.
+  - cbn [enabled] in En. apply andb_prop in En as [En _]. apply task_is_some in En as [k [Hf Hp]].
+    apply andb_prop in Hp as [Hp _]. apply andb_prop in Hp as [Hp Hs].
+    apply is_ph_eq in Hp. apply negb_true_iff in Hs.
+    pose proof (sumw_upd t set_snt _ k Hn Hf) as X.
+    unfold tw in X at 1 2. cbn in X. rewrite Hp, Hs in X. lia.
+  - cbn [enabled] in En. apply task_is_some in En as [k [Hf Hp]].
+    pose proof (sumw_del t _ k Hn Hf) as X. pose proof (tw_pos k). lia.
+Qed.
+
+(* the one step that does not: try_run takes the pending request and starts its run *)
+Lemma try_start_consumes o cap s w t s' :
+  step o cap s (ETry (TStart w t)) = Some s' ->
+  want s = Some w /\ want s' = None /\ In (mkTask t Spawned false false) (tasks s').
+Proof.
+  unfold step. destruct (enabled o cap s (ETry (TStart w t))) eqn:En; [|discriminate].
+  intros H; injection H as <-. cbn [enabled] in En. apply andb_prop in En as [_ En].
+  apply tres_eqb_eq in En. symmetry in En. apply try_start in En as [_ [_ W]].
+  repeat split; auto. cbn. apply in_app_iff. cbn. auto.
+Qed.
+
+Lemma pending_request_has_enabled_step cap e0 tr s w :
+  1 <= cap -> steps ReleaseFirst cap (init e0) tr = Some s -> want s = Some w ->
+  exists e, internal e = true /\ enabled ReleaseFirst cap s e = true.
+Proof.
+  intros Hc H W. apply (progress_enabled cap s w Hc); auto.
+  - eapply inv_steps; [apply inv_init | eassumption].
+  - eapply ns_steps; [apply inv_init | apply ns_init | eassumption].
+Qed.
+
+Lemma internal_steps_decrease_measure o cap e0 tr s e s' :
+  steps o cap (init e0) tr = Some s -> step o cap s e = Some s' -> internal e = true ->
+  (forall w t, e <> ETry (TStart w t)) -> mu s' < mu s.
+Proof.
+  intros H. apply variant. eapply inv_steps; [apply inv_init | eassumption].
+Qed.
+
+(* ------------------------------------------------------------------ *)
+(* witnesses *)
+
 (* The order of the pinned code (guard dropped after the done signal): a request made
-   while a run is in flight gets stuck. *)
+   while a run is in flight gets stuck — nothing is left that would make the actor call
+   try_run, no task is alive, the lock is free. *)
 Definition stuck_trace : list ev :=
   [ESched Periodic (SStart 1); ESched RelayMapChange SBusy; EWork 1; EStore 1; ESend 1;
    ERecv; ETry TBusy; ERelease 1; EEnd 1].
@@ -13,5 +733,42 @@ Definition stuck_state : st := mkSt (Some RelayMapChange) false [] 0 false false
 
 Lemma send_first_refuted :
   exists tr s w, steps SendFirst 8 (init false) tr = Some s /\
-    want s = Some w /\ pending_trigger s = false /\ tasks s = [] /\ lock s = false.
-Proof. exists stuck_trace, stuck_state, RelayMapChange. vm_compute. repeat split; reflexivity. Qed.
+    want s = Some w /\ pending_trigger s = false /\ tasks s = [] /\ lock s = false /\
+    (forall e, internal e = true -> enabled SendFirst 8 s e = false).
+Proof.
+  exists stuck_trace, stuck_state, RelayMapChange. vm_compute. repeat split; try reflexivity.
+  intros e. destruct e as [b| |w r| |r|t|t|t|t|t]; try reflexivity; discriminate.
+Qed.
+
+(* non-vacuity: with the guard released first, a state with a pending request is reachable,
+   and the same schedule lets try_run start the requested run *)
+Example pending_reachable :
+  exists s, steps ReleaseFirst 8 (init false)
+              [ESched Periodic (SStart 1); ESched RelayMapChange SBusy; EWork 1; EStore 1;
+               ERelease 1; ESend 1; ERecv] = Some s /\ want s = Some RelayMapChange.
+Proof. eexists. vm_compute. split; reflexivity. Qed.
+
+Example fixed_schedule_runs :
+  exists s, steps ReleaseFirst 8 (init false)
+              [ESched Periodic (SStart 1); ESched RelayMapChange SBusy; EWork 1; EStore 1;
+               ERelease 1; ESend 1; ERecv; ETry (TStart RelayMapChange 2); EEnd 1] = Some s /\
+            want s = None /\ lock s = true.
+Proof. eexists. vm_compute. repeat split; reflexivity. Qed.
+
+(* the harness script of the witness, as the model predicts it for both orders *)
+Example witness_script_send_first :
+  model_trace SendFirst (false, [CIns; CWork; CSend 0; CTry; CEnd 0]) =
+  [ESched Periodic (SStart 1); ESetRelays false; ESched RelayMapChange SBusy; EWork 1; EStore 1;
+   ESend 1; ERecv; ETry TBusy; ERelease 1; EEnd 1].
+Proof. vm_compute. reflexivity. Qed.
+
+Example witness_script_release_first :
+  model_trace ReleaseFirst (false, [CIns; CWork; CSend 0; CTry; CEnd 0]) =
+  [ESched Periodic (SStart 1); ESetRelays false; ESched RelayMapChange SBusy; EWork 1; EStore 1;
+   ERelease 1; ESend 1; ERecv; ETry (TStart RelayMapChange 2); EEnd 1].
+Proof. vm_compute. reflexivity. Qed.
+
+Example monitor_rejects_stuck :
+  monitor (false, [CIns; CWork; CSend 0; CTry; CEnd 0])
+          (Ok (model_trace SendFirst (false, [CIns; CWork; CSend 0; CTry; CEnd 0]))) = false.
+Proof. vm_compute. reflexivity. Qed.
